@@ -570,8 +570,24 @@ class State:
                 return True
         diff = (x - y)
         num = diff.n            # diff == 0  <=>  numerator == 0
+        # clear negative exponents of non-zero atoms (scales, quanta, numeric elements): a*b*c^-1 - 1 == 0  <=>  a*b - c == 0
+        from .poly import Poly as _P
+        from fractions import Fraction as _F
+        low = {}
+        for m in num.t:
+            for a, e in m:
+                if a[0] in ("mu", "rho", "Qm", "sf", "pw10", "beta", "nu") and e[1] == 0:
+                    low[a] = min(low.get(a, 0), e[0])
+        for m in num.t:
+            for a in low:
+                if a not in dict(m):
+                    low[a] = min(low[a], 0)
+        shift = tuple(sorted(((a, (-e, 0)) for a, e in low.items() if e < 0), key=lambda kv: repr(kv[0])))
+        if shift:
+            num = (RF(num) * RF(_P({shift: _F(1)}))).n
         from .poly import Poly
-        pref = {"ki": 0, "a": 1, "k": 2, "sym": 3, "parsed": 4, "ta": 5, "um": 6, "mu": 7, "n": 8}
+        pref = {"nu": -1, "ki": 0, "a": 1, "k": 2, "sym": 3, "parsed": 4, "ta": 5, "um": 6, "mu": 7, "n": 8,
+                "rho": 9, "beta": 10, "sf": 11}
         cands = sorted((a for a in num.atoms() if a[0] in pref), key=lambda a: (pref[a[0]], repr(a)))
         for atom in cands:
             coef: dict = {}
